@@ -1,6 +1,6 @@
 (* Props/C19.v — property C19: function structure definitions (SFDL) are read exactly as documented. *)
 From SG Require Import Base.Prelude Base.Kinds Spec.SfdlDoc Model.Secs2 Model.Sfdl Gen.DataItems.
-From SG Require Import Proofs.SfdlProofs.
+From SG Require Import Proofs.SfdlProofs Proofs.SfdlShape.
 Open Scope N_scope.
 
 (* Any layout of the same tokens - any amount of whitespace, any comments, anywhere, including none between
@@ -11,19 +11,64 @@ Theorem C19_layout_irrelevant : forall items lead,
 Proof. exact elements_layout_irrelevant. Qed.
 Print Assumptions C19_layout_irrelevant.
 
+(* THE DOCUMENTED SHAPE, for every definition of the documented grammar - any nesting depth, any number of members,
+   fixed and open lists, optional list names - written in ANY layout (whitespace, comments):
+   the text is accepted and the structure generated from it is the documented one: a list with one member is an open
+   array of that member, any other list a record whose keys are the documented keys (Spec/SfdlDoc.v: doc_shape, doc_key).
+   sfdl_dom (Proofs/SfdlShape.v) is the domain:
+     ast_ok            data item names are catalogue names as the catalogue writes them, list names are words, every list has a member;
+     keys_distinct     the documented keys of every record are pairwise distinct (the documentation does not say what a clash means);
+     naming_supported  the definitions whose keys the documentation determines AND the reader honours
+                       (outside: the known finding C19-name-handdown, and unnamed open lists of a named list, for which the
+                        documentation names no key). *)
+Theorem C19_documented_shape : forall a items lead, sfdl_dom a = true ->
+  layout_ok items = true -> forallb gapel_ok lead = true -> map (fun p => tok_text (fst p)) items = atoks a ->
+  exists s, sfdl_structure (gap_text lead ++ render items) = Ok s /\ shape_of s = doc_shape a.
+Proof. exact documented_shape. Qed.
+Print Assumptions C19_documented_shape.
+
+(* the three stages it is made of, each for every nesting: the validation accepts the tokens of a definition and consumes exactly them, ... *)
+Theorem C19_validation_accepts : forall a, ast_ok a = true -> forall f rest,
+  (length (atoks a ++ rest) < f)%nat -> validate f (atoks a ++ rest) = Ok rest.
+Proof. exact validate_ok. Qed.
+Print Assumptions C19_validation_accepts.
+(* ... the format generator reads them as the nesting they denote (with the list name handed to the members, fmt_of), ... *)
+Theorem C19_format_of_tokens : forall a, ast_ok a = true -> forall f rest tn,
+  (length (atoks a ++ rest) < f)%nat -> gen_sfdl f (atoks a ++ rest) tn = Ok (fmt_of a tn, rest).
+Proof. exact gen_ok. Qed.
+Print Assumptions C19_format_of_tokens.
+(* ... and generate() turns that format into the documented shape, whatever name is handed down from outside *)
+Theorem C19_shape_of_format : forall a, ast_ok a = true -> keys_distinct a = true -> naming_supported a = true ->
+  forall tn, exists s, build (fmt_of a tn) = Ok (s, bname a tn) /\ shape_of s = doc_shape a.
+Proof. exact build_ok. Qed.
+Print Assumptions C19_shape_of_format.
+
+
+(* REJECTION: on ANY element list the validation only accepts what starts with '<' and the list tag or a known data item name,
+   and what it consumes ends with the closing '>'; no structure is generated from a text that is not such a definition *)
+Theorem C19_accepts_only_closed_known : forall f els rest, validate f els = Ok rest ->
+  (exists item r, els = [cp_lt] :: item :: r /\ (item = T_L \/ attr_exists item = true)) /\
+  (exists pre, els = (pre ++ [cp_gt] :: rest)%list).
+Proof. exact validate_accepts_only. Qed.
+Print Assumptions C19_accepts_only_closed_known.
+Theorem C19_structure_only_of_closed : forall src s, sfdl_structure src = Ok s ->
+  exists item r pre rest, elements_of src = [cp_lt] :: item :: r /\ (item = T_L \/ attr_exists item = true) /\
+                          elements_of src = (pre ++ [cp_gt] :: rest)%list.
+Proof. exact structure_only_of_closed. Qed.
+Print Assumptions C19_structure_only_of_closed.
+
 Open Scope string_scope.
+(* non-vacuity: the documentation's S6F8 example (named open lists of unnamed records, four levels) is in the domain *)
+Example C19_domain_inhabited :
+  sfdl_dom (AList None [AItem "DATAID"; AItem "CEID"; AList (Some "DS") [AList None [AItem "DSID"; AList (Some "DV") [AList None [AItem "DVNAME"; AItem "DVVAL"]]]]]) = true.
+Proof. vm_compute. reflexivity. Qed.
+
 (* helpers to write definitions as token lists *)
 Definition tk (s : string) : tok * list gapel :=
   let t := text_of_string s in
   match t with [c] => if is_op c then (TOp c, [GWs 32]) else (TWord t, [GWs 32]) | _ => (TWord t, [GWs 32]) end.
 Definition def (l : list string) : text := render (map tk l).
 
-Fixpoint shape_of (s : sty) : shape :=
-  match s with
-  | SLeaf n _ => ShItem n
-  | SArr e => ShArray (shape_of e)
-  | SRec fs => ShRecord (map (fun p => (fst p, shape_of (snd p))) fs)
-  end.
 Definition reads_as (l : list string) (a : sast) : Prop :=
   match sfdl_structure (def l) with Ok s => shape_of s = doc_shape a | Err _ => False end.
 
@@ -45,8 +90,8 @@ Theorem C19_documented_examples :
 Proof. repeat split; vm_compute; reflexivity. Qed.
 Print Assumptions C19_documented_examples.
 
-(* a missing closing bracket and an unknown data item are rejected (instances; the general statement is
-   covered by the correspondence check's bracket/name mutations) *)
+(* a missing closing bracket and an unknown data item are rejected: evaluated instances (nested positions are covered by the
+   correspondence check's bracket/name mutations) *)
 Theorem C19_rejection_examples :
   (forall s, sfdl_structure (def ["<";"L";"<";"SVID";">"]%string) <> Ok s) /\
   (forall s, sfdl_structure (def ["<";"L";"<";"SVID";">";"<";"NOSUCHITEM";">";">"]%string) <> Ok s) /\
